@@ -49,6 +49,7 @@ type execResult struct {
 	cands, candsHeld int64    // MANIFEST syncs observed while an sstable's directory entry was unsynced
 	keep, drop       *vfs.MemFS
 	torn             *tornWrite // operation k was a write: what it wrote where
+	tornSkip         string
 	cloneErr         error
 	startedAtK       int
 	ackedAtK         int
@@ -203,7 +204,7 @@ func execHistory(r *lib.Run, h *history, k int64, probeCand int64) (res execResu
 	res.unsyncedAtK = cfs.unsyncedAtK
 	res.firedAt = cfs.firedAt
 	res.keep, res.cloneErr = cfs.keep, cfs.cloneErr
-	res.torn = cfs.torn
+	res.torn, res.tornSkip = cfs.torn, cfs.tornSkip
 	res.startedAtK, res.ackedAtK = int(cfs.startedAtK), int(cfs.ackedAtK)
 	cfs.mem.ResetToSyncedState()
 	cfs.mem.SetIgnoreSyncs(false)
@@ -227,8 +228,19 @@ func crashPoint(r *lib.Run, h *history, k int64, withMix bool) {
 	if len(res.unsyncedAtK) > 0 && strings.Contains(res.kindAtK, "sync") && strings.HasSuffix(res.kindAtK, ":manifest") {
 		r.Count("crash_points_at_manifest_sync_with_unsynced_sstable_dirent", 1)
 	}
+	if res.torn == nil && strings.HasPrefix(res.kindAtK, "file.write") {
+		// writes of 0 or 1 bytes cannot be torn (the log writer issues empty writes for an already flushed block)
+		r.Count("torn_write_not_described:"+res.tornSkip+":"+fileClassOfKind(res.kindAtK), 1)
+		if !strings.HasPrefix(res.tornSkip, "write-of-") {
+			tornUnexpectedSkips.Add(1)
+		}
+	}
 	checkCrashImages(r, h, res, "", withMix)
 }
+
+var tornUnexpectedSkips atomic.Int64
+
+func fileClassOfKind(kind string) string { return kind[strings.LastIndex(kind, ":")+1:] }
 
 // probePoint is the directed variant: directory syncs are slow, the crash is
 // taken at the cand-th MANIFEST sync that completes while an sstable's
@@ -452,8 +464,8 @@ func run(r *lib.Run) {
 	if r.Counter("images_torn") == 0 || r.Counter("torn_cuts:record-end") == 0 || r.Counter("torn_writes_on:wal") == 0 {
 		r.FloorMiss("no torn-write image at a WAL record boundary was produced (%d torn images, %d cuts at record ends, %d WAL writes torn)", r.Counter("images_torn"), r.Counter("torn_cuts:record-end"), r.Counter("torn_writes_on:wal"))
 	}
-	if w := r.Counter("crash_at:file.write:wal") + r.Counter("crash_at:file.write:manifest"); r.Counter("torn_writes_on:wal")+r.Counter("torn_writes_on:manifest") != w {
-		r.Warn("%d crash points fell on a WAL/MANIFEST write but %d of them got torn-write images", w, r.Counter("torn_writes_on:wal")+r.Counter("torn_writes_on:manifest"))
+	if n := tornUnexpectedSkips.Load(); n > 0 {
+		r.Warn("%d crash points fell on a write of >= 2 bytes that the wrapper could not describe (no torn-write images there); see the torn_write_not_described counters", n)
 	}
 	if nr, at := r.Counter("k_not_reached"), r.Counter("crash_points_attempted"); at > 0 && nr*5 > at {
 		r.Warn("%d of %d crash points were not reached in their rerun", nr, at)
